@@ -677,7 +677,13 @@ func c17Replay(c *Ctx, cfg string, emitted string, hdr *c17Hdr, shards int, dir 
 		wg.Add(1)
 		go func(s int) {
 			defer wg.Done()
-			results[s], errs[s] = c17RunChild(child, filepath.Dir(paths[s]), paths[s], chroot)
+			// every second child calls extensions.Init a second time with another configuration ("can be called multiple
+			// times safely": the first call decides, whatever comes later)
+			reinit := []string{}
+			if s%2 == 1 {
+				reinit = []string{"reinit"}
+			}
+			results[s], errs[s] = c17RunChild(child, filepath.Dir(paths[s]), paths[s], chroot, reinit...)
 		}(s)
 	}
 	wg.Wait()
